@@ -362,6 +362,31 @@ def hex_norm(toks, top=True):
     return out or [["b", 0x61]]
 
 
+def no_empty(n):
+    """libyara's regex grammar has no empty group or empty alternation branch (`()`, `(|a)`, `(a|)`), which the C03
+    generator produces and boreal accepts: they are dropped (a branch / group left with nothing becomes a literal)"""
+    t = n[0]
+    if t == "empty":
+        return None
+    if t == "alt":
+        bs = [x for x in (no_empty(b) for b in n[1]) if x is not None]
+        if not bs:
+            return None
+        return bs[0] if len(bs) == 1 else ["alt", bs]
+    if t == "cat":
+        xs = [x for x in (no_empty(b) for b in n[1]) if x is not None]
+        if not xs:
+            return None
+        return xs[0] if len(xs) == 1 else ["cat", xs]
+    if t == "group":
+        x = no_empty(n[1])
+        return None if x is None else ["group", x]
+    if t == "rep":
+        x = no_empty(n[1])
+        return None if x is None else ["rep", x, n[2], n[3]]
+    return n
+
+
 def regex_uniform(n, greedy, inside=False):
     """libyara rejects a regex that mixes greedy and lazy quantifiers.  Also: an unbounded repetition nested in an
     unbounded repetition (`(.+.*b?)*`) is made bounded — the reference matcher of Spec/Regex.v takes minutes on it
@@ -600,7 +625,10 @@ def gen_string(rng, name):
         mods["fullword"] = False
     ci, da = rng.chance(1, 5), rng.chance(1, 3)
     opts = {"wide": mods["wide"], "wb": (not mods["wide"]) and rng.chance(1, 3), "anchors": rng.chance(1, 8)}
-    node = regex_uniform(_C03.gen_alt(rng, 0, opts, top=True), not rng.chance(1, 3))
+    node = no_empty(_C03.gen_alt(rng, 0, opts, top=True)) or ["lit", 0x61, 0]
+    if node[0] == "assert":
+        node = ["cat", [node, ["lit", 0x61, 0]]]
+    node = regex_uniform(node, not rng.chance(1, 3))
     return {"name": name, "kind": "regex", "node": node, "ci": ci, "da": da, "mods": mods}
 
 
@@ -1113,9 +1141,34 @@ class C07(Prop):
                 for s in b["scans"]]
             ctx.count("oracle_quirk[%s]=%s" % (case["oracle_quirk"], "gone" if same else "present"))
             return (True, True, 0)
+        for r in case["rules"]:
+            for s in r["strings"]:
+                ctx.count("string=" + s["kind"])
+        t1 = self.boreal_term(ctx, case, y, b, "speed")
+        bm = out.get("boreal_mem")
+        if bm is None:
+            return t1
+        if self.canon(bm) == self.canon(b):
+            ctx.count("profiles_equal")
+            return t1
+        # the memory profile answers differently: both answers are judged against libyara
+        ctx.count("profiles_differ")
+        t2 = self.boreal_term(ctx, case, y, bm, "memory")
+        if isinstance(t1, tuple) or isinstance(t2, tuple):
+            return t2 if isinstance(t2, tuple) else t1
+        return "C07_pair (%s) (%s)" % (t1, t2)
+
+    @staticmethod
+    def canon(b):
+        if not isinstance(b, dict) or "scans" not in b:
+            return ("fail", "panic" in (b or {}))
+        return [(s.get("err"), sorted(json.dumps(r, sort_keys=True) for r in s["rules"]), sorted(s.get("default", [])))
+                for s in b["scans"]]
+
+    def boreal_term(self, ctx, case, y, b, profile):
         if "scans" not in b:
-            # libyara accepts, boreal rejects or panics at compile time
-            ctx.count("boreal_rejects")
+            # libyara accepts, boreal rejects or panics
+            ctx.count("boreal_rejects[%s]" % profile)
             ctx.count("boreal_panics" if "panic" in b else "boreal_compile_error")
             return "C07_rejected %s %s" % (glist(g_rule(r) for r in case["rules"]), gbool("panic" in b))
         ins = glist(gbytes(bytes.fromhex(h)) for h in case["inputs"])
@@ -1123,13 +1176,11 @@ class C07(Prop):
         bobs = glist(g_obs(case, s) for s in b["scans"])
         bdef = glist(g_default(case, s) for s in b["scans"])
         errs = any(s.get("err") for s in y["scans"]) or any(s.get("err") for s in b["scans"])
-        for r in case["rules"]:
-            for s in r["strings"]:
-                ctx.count("string=" + s["kind"])
         nl = nlits_of(case, b)
-        for r in case["rules"]:
-            for x, _ in nl[r["id"]]:
-                ctx.count("literals=%s" % ("0" if x == 0 else "1" if x == 1 else ">1"))
+        if profile == "speed":
+            for r in case["rules"]:
+                for x, _ in nl[r["id"]]:
+                    ctx.count("literals=%s" % ("0" if x == 0 else "1" if x == 1 else ">1"))
         return "C07_case %s %s %s %s %s %s" % (glist(g_rule(r, nl) for r in case["rules"]), ins, yobs, bobs, bdef,
                                                gbool(not errs))
 
@@ -1157,7 +1208,11 @@ class C07(Prop):
             v = r.get("verdict")
             if v is not None and not (v[0] and v[1]):
                 dis += 1
-        return {"programs": self.stats["programs"], "disagreements_checked": dis,
+        rej = ctx.dist.get("yara_rejects", 0)
+        if rej * 10 > max(1, len(results)):
+            ctx.notes.append("WARNING: libyara rejected %d of %d files: the generator has left libyara's grammar somewhere "
+                             "(coverage loss, not a violation)" % (rej, len(results)))
+        return {"programs": self.stats["programs"], "disagreements_checked": dis, "yara_rejected_files": rej,
                 "explanation": "programs = rule files libyara compiled (each run on 3 inputs through libyara, boreal and "
                                "the Gallina specifications); disagreements_checked = cases in which some pair of the "
                                "three disagreed and that were classified (documented deviation, recorded finding or "
